@@ -172,10 +172,14 @@ def _run_stream(case):
 
 
 def strategies(tier):
-    return [_clf_case(), _stream_case()]
+    from . import ma_extra
+    return [ma_extra.enc_strategy(), _clf_case(), _stream_case()]
 
 
 def run_case(case):
+    if case["kind"] == "ma_enc":
+        from . import ma_extra
+        return ma_extra.run_case(case)
     if case["kind"] == "clf":
         return _run_clf(case)
     return _run_stream(case)
